@@ -683,3 +683,9 @@ package ast
 //@   ensures other: !(tokenType == NOT || tokenType == HEAD || tokenType == TAIL) ==> result == -1
 //@ func isBinaryOp [C11]
 //@   ensures result == isBinTok(tokenType)
+
+// ---- keyword recognition (C15): the token type of a word is a function of its lower-cased text ----
+// 52 keywords, read from the lexer's switch by tools/gen_keywords.py
+//@ pred kwOf(s Str) := (s == "find" ? FIND : (s == "replace" ? REPLACE : (s == "with" ? WITH : (s == "set" ? SET : (s == "to" ? TO : (s == "pattern" ? PATTERN : (s == "matches" ? MATCHES : (s == "transform" ? TRANSFORM : (s == "function" ? TRANSFORM : (s == "all" ? ALL : (s == "skip" ? SKIP : (s == "take" ? TAKE : (s == "top" ? TOP : (s == "last" ? LAST : (s == "any" ? ANY : (s == "whitespace" ? WHITESPACE : (s == "digit" ? DIGIT : (s == "upper" ? UPPER : (s == "lower" ? LOWER : (s == "letter" ? LETTER : (s == "line" ? LINE : (s == "file" ? FILE : (s == "word" ? WORD : (s == "start" ? START : (s == "end" ? END : (s == "begin" ? BEGIN : (s == "not" ? NOT : (s == "at" ? AT : (s == "least" ? LEAST : (s == "most" ? MOST : (s == "between" ? BETWEEN : (s == "and" ? AND : (s == "exactly" ? EXACTLY : (s == "maybe" ? MAYBE : (s == "fewest" ? FEWEST : (s == "named" ? NAMED : (s == "in" ? IN : (s == "or" ? OR : (s == "if" ? IF : (s == "then" ? THEN : (s == "else" ? ELSE : (s == "debug" ? DEBUG : (s == "return" ? RETURN : (s == "head" ? HEAD : (s == "tail" ? TAIL : (s == "loop" ? LOOP : (s == "continue" ? CONTINUE : (s == "break" ? BREAK : (s == "true" ? TRUE : (s == "false" ? FALSE : (s == "whole" ? WHOLE : (s == "caseless" ? CASELESS : IDENTIFIER))))))))))))))))))))))))))))))))))))))))))))))))))))
+//@ func (*Lexer).getNextToken [C15]
+//@   atcall get_position#2 kwcase: current_state == SIDENTIFIER ==> token.TokenType == kwOf(slower(addr(buf).content)) [C15]
